@@ -12,14 +12,19 @@ import (
 func New() *Handler {
 	return &Handler{
 		m:        new(sync.Mutex),
-		requests: map[int64]chan event{},
+		requests: map[int64]client{},
 	}
 }
 
 type Handler struct {
 	m        *sync.Mutex
 	counter  int64
-	requests map[int64]chan event
+	requests map[int64]client
+}
+
+type client struct {
+	events chan event
+	done   chan struct{}
 }
 
 type event struct {
@@ -33,10 +38,13 @@ func (s *Handler) Send(eventType string, data string) {
 	defer s.m.Unlock()
 	for _, f := range s.requests {
 		f := f
-		go func(f chan event) {
-			f <- event{
+		go func(f client) {
+			select {
+			case f.events <- event{
 				Type: eventType,
 				Data: data,
+			}:
+			case <-f.done:
 			}
 		}(f)
 	}
@@ -52,13 +60,14 @@ func (s *Handler) ServeHTTP(w http.ResponseWriter, r *http.Request) {
 	id := atomic.AddInt64(&s.counter, 1)
 	s.m.Lock()
 	events := make(chan event)
-	s.requests[id] = events
+	done := make(chan struct{})
+	s.requests[id] = client{events: events, done: done}
 	s.m.Unlock()
 	defer func() {
 		s.m.Lock()
 		defer s.m.Unlock()
 		delete(s.requests, id)
-		close(events)
+		close(done)
 	}()
 
 	timer := time.NewTimer(0)
